@@ -118,6 +118,7 @@ type Scenario struct {
 	NoTxLog   int           `json:"notx"` // 1: omit delivered acks; 2: omit every wire event that met no fault
 	Linger    int           `json:"linger"`
 	Gates     []*Gate       `json:"gates"`
+	Realtime  bool          `json:"realtime"` // run on the wall clock, outside a synctest bubble
 	Expect    string        `json:"expect"`  // "complete": every byte written must be read and the run must not stall  // virtual ms to keep muxes alive after programmes end
 }
 
@@ -701,7 +702,9 @@ func Run(sc *Scenario) (res *Result) {
 	// underlay was marked done exits only when that timeout fires; let virtual
 	// time pass so that only goroutines that NEVER exit trip the bubble's
 	// leak detector.
-	time.Sleep(150 * time.Second)
+	if !sc.Realtime {
+		time.Sleep(150 * time.Second)
+	}
 	return
 }
 
@@ -742,18 +745,82 @@ func runProg(rec *recorder, ep string, idx int, conn net.Conn, ops []Op, roff0 i
 	closed := false
 	timeouts := 0
 	var wbuf []byte
+	// consecutive successful reads are logged as one R event (position of the first, total length,
+	// ok only if every byte matched): one-byte readers would otherwise dominate the trace
+	var pend *Event
+	var pendReads int
+	var pmu sync.Mutex
+	flush := func() {
+		pmu.Lock()
+		if pend != nil {
+			pend.B = pendReads
+			rec.add(*pend)
+			pend, pendReads = nil, 0
+		}
+		pmu.Unlock()
+	}
 	read := func(buf []byte) (int, error) {
 		n, err := conn.Read(buf)
 		ok := true
 		if n > 0 {
 			ok = bytes.Equal(buf[:n], KS(idx, dirR, roff, n))
 		}
-		rec.add(Event{Ev: "R", Ep: ep, S: idx, N: n, Ok: ok, Err: errClass(err), Off: roff, A: len(buf)})
+		if err == nil && n > 0 {
+			pmu.Lock()
+			if pend == nil {
+				pend = &Event{Ev: "R", Ep: ep, S: idx, N: 0, Ok: true, Off: roff, A: len(buf)}
+			}
+			pend.N += n
+			pend.Ok = pend.Ok && ok
+			pendReads++
+			full := pendReads >= 512 || pend.N >= 1<<20
+			pmu.Unlock()
+			if full || !ok {
+				flush()
+			}
+		} else {
+			flush()
+			rec.add(Event{Ev: "R", Ep: ep, S: idx, N: n, Ok: ok, Err: errClass(err), Off: roff, A: len(buf)})
+		}
 		roff += int64(n)
 		return n, err
 	}
+	defer flush()
+	var bg chan struct{}
 	for _, op := range ops {
 		switch op.Name() {
+		case "bg_rn":
+			// concurrent reader: reads until total bytes (or a fatal error) while the programme goes on writing
+			total := int64(op.Int(1))
+			bs := op.Int(2)
+			if bs == 0 {
+				bs = 4096
+			}
+			bg = make(chan struct{})
+			go func() {
+				defer close(bg)
+				buf := make([]byte, bs)
+				for roff < total {
+					want := total - roff
+					b := buf
+					if int64(len(b)) > want {
+						b = b[:want]
+					}
+					if _, err := read(b); err != nil {
+						if stderror.IsTimeout(err) && timeouts < 100 {
+							timeouts++
+							continue
+						}
+						return
+					}
+				}
+			}()
+		case "join":
+			if bg != nil {
+				<-bg
+				bg = nil
+			}
+			flush()
 		case "w":
 			n := op.Int(1)
 			// like io.Copy, the application reuses ONE buffer for all its writes
@@ -763,6 +830,7 @@ func runProg(rec *recorder, ep string, idx int, conn net.Conn, ops []Op, roff0 i
 			}
 			data := wbuf[:n]
 			copy(data, KS(idx, dirW, woff, n))
+			flush()
 			rec.add(Event{Ev: "Wb", Ep: ep, S: idx, N: n, Off: woff})
 			m, err := conn.Write(data)
 			for i := range data {
@@ -770,6 +838,27 @@ func runProg(rec *recorder, ep string, idx int, conn net.Conn, ops []Op, roff0 i
 			}
 			rec.add(Event{Ev: "W", Ep: ep, S: idx, N: m, Ok: err == nil, Err: errClass(err), Off: woff, A: n})
 			woff += int64(m)
+		case "wn":
+			// op[1] writes of op[2] bytes each, logged as one aggregated write
+			cnt, sz := op.Int(1), op.Int(2)
+			flush()
+			rec.add(Event{Ev: "Wb", Ep: ep, S: idx, N: cnt * sz, Off: woff})
+			start := woff
+			var werr error
+			for k := 0; k < cnt && werr == nil; k++ {
+				if cap(wbuf) < sz {
+					wbuf = make([]byte, sz)
+				}
+				data := wbuf[:sz]
+				copy(data, KS(idx, dirW, woff, sz))
+				var m int
+				m, werr = conn.Write(data)
+				for i := range data {
+					data[i] = 0xEE
+				}
+				woff += int64(m)
+			}
+			rec.add(Event{Ev: "W", Ep: ep, S: idx, N: int(woff - start), Ok: werr == nil, Err: errClass(werr), Off: start, A: cnt * sz})
 		case "r":
 			read(make([]byte, op.Int(1)))
 		case "rn":
@@ -810,6 +899,7 @@ func runProg(rec *recorder, ep string, idx int, conn net.Conn, ops []Op, roff0 i
 				}
 			}
 		case "close":
+			flush()
 			rec.add(Event{Ev: "Cb", Ep: ep, S: idx, Off: woff})
 			t0 := time.Now()
 			err := conn.Close()
@@ -825,6 +915,7 @@ func runProg(rec *recorder, ep string, idx int, conn net.Conn, ops []Op, roff0 i
 			el := time.Since(rec.start).Milliseconds()
 			rec.add(Event{Ev: "Mark", Ep: ep, S: idx, N: op.Int(1), Ok: el <= int64(op.Int(1)), Off: -1})
 		case "sig":
+			flush()
 			func() {
 				defer func() { recover() }() // signalled twice
 				close(sig(op.Str(1)))
@@ -838,6 +929,13 @@ func runProg(rec *recorder, ep string, idx int, conn net.Conn, ops []Op, roff0 i
 			}
 		}
 	}
+	if bg != nil {
+		select {
+		case <-bg:
+		case <-time.After(600 * time.Second):
+		}
+	}
+	flush()
 	if !closed {
 		rec.add(Event{Ev: "Cb", Ep: ep, S: idx, Off: woff, A: 1})
 		t0 := time.Now()
